@@ -1,5 +1,6 @@
 """C09 — the debugger is transparent to the program."""
-from ..facts import callee_of, short, sp_file_line
+import re
+from ..facts import callee_of, short, sp_file_line, expr_walk
 from .. import kit, dbg
 from ..effects import Effects
 
@@ -13,7 +14,9 @@ EXPLANATION = (
     "code prints to stdout except the program's own traps (through eval->execute), the interactive TTY reader, and "
     "reviewed exceptions. R5: quit/end-of-input detach the debugger and fall back into the very loop C03 checks. "
     "R6 (GLOB): for every thread-local that code reachable from the pausing code may write (the line-start tracker), every branch that "
-    "tests it controls no call that can reach stdout - otherwise debugger text on stderr changes what the program prints on stdout."
+    "tests it controls no call that can reach stdout - otherwise debugger text on stderr changes what the program prints on stdout. "
+    "R7: the stdin command reader holds the process-wide Stdin handle (no private BufReader) and reads it one byte at a time, so it consumes exactly "
+    "its own command lines and leaves the program's input alone."
 )
 NOT_DECIDED = "equality of complete runs (follows on paper from R1-R5 and determinism of execute)"
 
@@ -156,6 +159,13 @@ def run(ctx):
                 if s["r"].get("variant") != "StopDebugger":
                     ctx.violation("quit-action=%s" % s["r"].get("variant"), sp_file_line(s.get("sp")),
                                   "`quit` raises Action::%s instead of StopDebugger" % s["r"].get("variant"))
+    # ... on every path through the arm: `quit` (and therefore end of input) must never be refused
+    dodge, stop_b = dbg.quit_dodges(disp, arms)
+    ctx.oblig(not dodge, {"quit": "StopDebugger on every path of the arm"}, "must-pass-through")
+    if dodge:
+        ctx.violation("quit-refused", sp_file_line(disp.term(arms["Quit"]).get("sp")),
+                      "the Quit arm has a path (lines %s) that does not raise StopDebugger: end of input is mapped to quit, so once the input is exhausted in that "
+                      "situation the debugger re-reads end of input forever and the program never finishes" % disp.path_lines(disp.path(arms["Quit"], dodge, avoid=stop_b)))
     ctx.instance(1)
     ctx.oblig(found, {"quit": "Action::StopDebugger"}, "aggregate in the Quit arm")
     if not found:
@@ -253,5 +263,45 @@ def run(ctx):
                                       "`%s` writes to stdout (via %s) only when `%s` says so, and the debugger's own output changes that global: "
                                       "the program's stdout differs between a plain and a debugged run" % (short(h), short(w), short(r)))
     ctx.need(nshared >= 1, "a global written by debugger output (the line tracker)")
+    ctx.finish_rule()
+
+    # ------------------------------------------------------------------ R7
+    ctx.rule("C09.R7", "the debugger takes its commands from the shared stdin handle one byte at a time (it never swallows the program's input)", floor=2)
+    SR = "lace::debugger::command::reader::stdin::"
+    adt = prog.adt(SR + "Stdin")
+    ctx.need(adt, "struct reader::stdin::Stdin")
+    ftys = {f["name"]: f["ty"] for f in adt["variants"][0]["fields"]}
+    ctx.instance(1)
+    handles = {k: v for k, v in ftys.items() if "io::" in v}
+    ok = bool(handles) and all(v == "std::io::stdio::Stdin" for v in handles.values())
+    ctx.oblig(ok, {"reader fields": handles}, "the process-wide std::io::Stdin, no private buffer")
+    if not ok:
+        ctx.violation("stdin-private-buffer", adt.get("span", "-"), "the stdin command reader keeps %s: a private buffer reads ahead of the command being parsed, so input meant "
+                      "for the program's GETC/IN is gone once the debugger detaches" % handles)
+    reads = []
+    for n, f in sorted(prog.fns.items()):
+        if n.startswith(SR) and f.bkind == "fn":
+            for b, t, c in f.calls():
+                if c and re.search(r"std::io::(Read|BufRead)>?::\w+$", c):
+                    reads.append((n, f, b, t, c))
+    ctx.need(reads, "read call in the stdin command reader")
+    for n, f, b, t, c in reads:
+        ctx.instance(1)
+        recv = (t.get("arg_tys") or [""])[0].replace("&mut ", "")
+        one = False
+        if c.endswith("Read>::read") or c.endswith("Read>::read_exact"):
+            e = f.expr(t["args"][1], 8)
+            for x in expr_walk(e):
+                if x[0] == "local" or x[0] == "ref":
+                    pass
+            # the buffer is a local array of length 1
+            for l, ld in enumerate(f.d.get("locals", [])):
+                if ld.get("ty") == "[u8; 1]":
+                    one = True
+        ok = recv == "std::io::stdio::Stdin" and one
+        ctx.oblig(ok, {"read": short(c).rsplit("::", 1)[-1], "on": recv, "buffer": "[u8; 1]" if one else "?"}, "one byte from the shared handle")
+        if not ok:
+            ctx.violation("stdin-read-ahead|%s" % short(c).rsplit("::", 1)[-1], sp_file_line(t.get("sp")),
+                          "`%s` reads through %s on `%s`: more than the one byte being examined may leave the shared input stream" % (short(n), short(c), recv))
     ctx.finish_rule()
 
